@@ -13,6 +13,7 @@ func init() {
 	verifRegister("verifC14WriteLarge", verifC14WriteLarge)
 	verifRegister("verifC14RoundTrip", verifC14RoundTrip)
 	verifRegister("verifC14StartReading", verifC14StartReading)
+	verifRegister("verifC14BufferedWrite", verifC14BufferedWrite)
 }
 
 func verifBE16(b []byte) int { return int(b[0])<<8 | int(b[1]) }
@@ -203,5 +204,37 @@ func verifC14StartReading() {
 	verifAssert(conn.closed == 1, "stream-closed-on-error")
 	verifAssert(len(t.conns) == 0, "conn-removed")
 	verifAssert(len(t.recvChan) == 0, "nothing-else-queued")
+	verifReach("done")
+}
+
+// With a write buffer between the packet conn and the TCP connection
+// (TCPMuxParams.WriteBufferSize > 0) every packet the framing layer accepts is
+// forwarded to the connection, once, as the same frame — also packets at the
+// receive MTU, whose frame is two bytes longer than the payload.
+func verifC14BufferedWrite() {
+	sizes := []int{5, 8190, 8191, 8192}
+	n := sizes[verifChoice(len(sizes))]
+	conn := &verifStreamConn{failAt: -1, remote: verifAddr{"10.0.0.2:7"}}
+	bc := newBufferedConn(conn, 1<<22, verifNopLogger{})
+	verifRunGoroutines()
+	b := make([]byte, n)
+	b[0], b[n-1] = verifU8(), verifU8()
+	got, err := writeStreamingPacket(bc, b)
+	verifAssert(err == nil && got == n, "the-write-is-accepted")
+	small := []byte{verifU8(), 2, 3, 4}
+	got, err = writeStreamingPacket(bc, small)
+	verifAssert(err == nil && got == 4, "a-later-write-is-accepted")
+	verifRunGoroutines()
+	verifAssert(len(conn.written) == 2, "every-accepted-packet-reaches-the-connection-exactly-once")
+	if len(conn.written) == 2 {
+		w := conn.written[0]
+		verifAssert(len(w) == 2+n && verifBE16(w) == n && verifAnd(w[2] == b[0], w[len(w)-1] == b[n-1]), "forwarded-as-the-same-frame")
+		verifAssert(verifBytesEq(conn.written[1], verifFrame(small)), "order-and-content-of-later-packets-kept")
+	}
+	if n >= 8191 {
+		verifReach("mtu-sized")
+	}
+	verifAssert(bc.Close() == nil, "close-ok")
+	verifRunGoroutines()
 	verifReach("done")
 }
